@@ -455,20 +455,22 @@ Proof.
 Qed.
 
 (* ---- the specification record ---- *)
+Lemma prepr_len (m : pathm) L : prepr m L -> length L <= m_len ops m.
+Proof. intros (_ & _ & _ & _ & Hl). exact Hl. Qed.
+
+Definition path_mrep : mrep ops ok_path :=
+  {| repr := prepr; repr_perm := prepr_perm;
+     repr_len := prepr_len;
+     repr_new := prepr_new; repr_insert := prepr_insert; repr_remove := prepr_remove; repr_batch := prepr_batch;
+     repr_cache := prepr_cache |}.
+
 Definition path_mspec : mspec ops ok_path sat_path.
 Proof.
-  refine {| repr := prepr |}.
-  - exact prepr_perm.
-  - intros m L (_ & _ & _ & _ & Hl). exact Hl.
-  - exact prepr_new.
-  - exact prepr_insert.
-  - exact prepr_remove.
-  - exact prepr_batch.
+  refine {| ms_rep := path_mrep |}.
   - intros m L q Hr Hn. eapply Permutation_NoDup; [apply Permutation_sym, p_match_perm; eassumption|]. apply NoDup_filter, NoDup_ids_NoDup, Hn.
   - intros m L q r Hr Hn. split.
     + intros Hin. apply (proj1 (filter_In (fun r => sat_path r q) r L)). eapply Permutation_in; [apply p_match_perm; eassumption|exact Hin].
     + intros Hin. eapply Permutation_in; [apply Permutation_sym, p_match_perm; eassumption|]. apply (proj2 (filter_In (fun r => sat_path r q) r L)). exact Hin.
-  - exact prepr_cache.
   - intros m L q r Hr Hn. split.
     + intros Hin. apply (proj1 (filter_In (fun r => sat_path r q) r L)). eapply Permutation_in; [apply p_match_perm; eassumption|]. eapply Permutation_in; [apply p_trace_routes|exact Hin].
     + intros Hin. eapply Permutation_in; [apply Permutation_sym, p_trace_routes|]. eapply Permutation_in; [apply Permutation_sym, p_match_perm; eassumption|]. apply (proj2 (filter_In (fun r => sat_path r q) r L)). exact Hin.
